@@ -50,7 +50,9 @@ def setCfg (st : St) (kv : String) : Option St :=
     | "client.primaryCommitErrStops" => do
       let b ← boolOfString? v; pure { st with cfg := { st.cfg with primaryCommitErrStops := b } }
     | "perc.commitNoLockRejectsRollback" => do
-      let b ← boolOfString? v; pure { st with cfg := { st.cfg with perc := ⟨b⟩ } }
+      let b ← boolOfString? v; pure { st with cfg := { st.cfg with perc := { st.cfg.perc with commitNoLockRejectsRollback := b } } }
+    | "perc.getSkipsRollback" => do
+      let b ← boolOfString? v; pure { st with cfg := { st.cfg with perc := { st.cfg.perc with readSkipsRollback := b } } }
     | "redis.detectConflicts" => do
       let b ← boolOfString? v; pure { st with rcfg := { st.rcfg with detectConflicts := b } }
     | "redis.raftConflictFromReadTs" => do
@@ -119,7 +121,8 @@ def dedupStr (l : List String) : List String :=
 
 /-- C28 on one observation: every key shows the transaction's write, or none does.  A deleted key
     that was absent before cannot tell the two apart; an older value may also read as absent
-    (that is C17's rollback-record finding, not a 2PC matter), so "old" admits both. -/
+    (a rollback marker hiding it was C17's finding; a rollback marker written at a commit ts that
+    collides with the transaction's start ts replaces that record), so "old" admits both. -/
 def observeSpec (st : St) (t : Txn) (obs : List (Mut × GetRes)) : String × Option Bool :=
   if obs.any (fun p => p.2 = .locked) then ("*", st.decided)
   else
@@ -248,10 +251,10 @@ def step' (st : St) (toks : List String) : St × String :=
     | none => (st, "bad-op")
   | ["get", k, v] => withSys st fun _ y =>
     match natOf? k, natOf? v with
-    | some k, some v => (st, (get (y.store k) v).str ++ "\t*")
+    | some k, some v => (st, (get st.cfg.perc (y.store k) v).str ++ "\t*")
     | _, _ => (st, "bad-op")
   | ["observe"] => withSys st fun t y =>
-    let obs := t.muts.map fun m => (m, get (y.store m.key) t.cv)
+    let obs := t.muts.map fun m => (m, get st.cfg.perc (y.store m.key) t.cv)
     let line := " ".intercalate (obs.map fun p => s!"{p.1.key}=" ++ p.2.str)
     let (spec, dec) := observeSpec st t obs
     ({ st with decided := dec }, line ++ "\t" ++ spec)
